@@ -28,8 +28,10 @@ type HarnessSpec struct {
 	Bounds  map[string]string         `json:"bounds"` // tier -> human-readable bound statement
 	Covers  []string                  `json:"covers"` // reachability witnesses that must be hit (vacuity guard)
 
-	Workers       int  `json:"workers"`
-	NoConcordance bool `json:"no_concordance"` // harness is not meaningful natively (e.g. uses verifExpire)
+	Workers       int                 `json:"workers"`
+	PropTiers     map[string][]string `json:"prop_tiers"`     // property -> tiers in which this harness serves it (default: all)
+	ExpectRace    bool                `json:"expect_race"`    // sensitivity witness of the race detector: must report a race
+	NoConcordance bool                `json:"no_concordance"` // harness is not meaningful natively (e.g. uses verifExpire)
 }
 
 type LimitSpec struct {
@@ -104,7 +106,14 @@ type Loaded struct {
 	Pkg      *ssa.Package
 	LoadSecs float64
 	SrcHash  map[string]string // repo file -> sha256
+	Dropped  map[string]string // harness file (base name) that does not compile against the current tree -> first error
 }
+
+// droppedHarness: harness files left out of this process's overlays because they
+// do not type-check against the current tree (a unit they are anchored in was
+// renamed or re-shaped). Their harnesses are reported as inconclusive; the
+// others still run, so that a violation they find is still reported.
+var droppedHarness = map[string]string{}
 
 func harnessFiles() ([]string, error) {
 	ents, err := os.ReadDir(filepath.Join(verifDir, "harness"))
@@ -114,6 +123,9 @@ func harnessFiles() ([]string, error) {
 	var out []string
 	for _, e := range ents {
 		if !e.IsDir() && strings.HasSuffix(e.Name(), ".go") {
+			if _, gone := droppedHarness[e.Name()]; gone {
+				continue
+			}
 			out = append(out, filepath.Join(verifDir, "harness", e.Name()))
 		}
 	}
@@ -124,16 +136,39 @@ func harnessFiles() ([]string, error) {
 // load builds SSA for /repo's current working tree with the harness files
 // overlaid into the package (nothing is written into /repo).
 func load() (*Loaded, error) {
+	for {
+		l, bad, err := loadOnce()
+		if err == nil {
+			l.Dropped = droppedHarness
+			return l, nil
+		}
+		if len(bad) == 0 {
+			return nil, err
+		}
+		for f, e := range bad {
+			droppedHarness[f] = e
+		}
+	}
+}
+
+// loadOnce returns, on type errors that lie in harness files only, those files
+// (so that the load can be repeated without them).
+func loadOnce() (*Loaded, map[string]string, error) {
+	l, bad, err := loadOnce1()
+	return l, bad, err
+}
+
+func loadOnce1() (*Loaded, map[string]string, error) {
 	t0 := time.Now()
 	files, err := harnessFiles()
 	if err != nil {
-		return nil, err
+		return nil, nil, err
 	}
 	overlay := map[string][]byte{}
 	for _, f := range files {
 		b, err := os.ReadFile(f)
 		if err != nil {
-			return nil, err
+			return nil, nil, err
 		}
 		overlay[filepath.Join(repoDir, filepath.Base(f))] = b
 	}
@@ -142,17 +177,34 @@ func load() (*Loaded, error) {
 	cfg := &packages.Config{Mode: packages.LoadAllSyntax, Dir: repoDir, Overlay: overlay, Env: env}
 	pkgs, err := packages.Load(cfg, ".")
 	if err != nil {
-		return nil, err
+		return nil, nil, err
 	}
 	nerr := 0
+	bad := map[string]string{}
+	other := false
 	packages.Visit(pkgs, nil, func(p *packages.Package) {
 		for _, e := range p.Errors {
 			fmt.Fprintf(os.Stderr, "load error: %v\n", e)
 			nerr++
+			file := e.Pos
+			if i := strings.Index(file, ":"); i >= 0 {
+				file = file[:i]
+			}
+			base := filepath.Base(file)
+			if strings.HasPrefix(base, "zz_verif_") && base != "zz_verif_api.go" && filepath.Dir(file) == repoDir {
+				if _, ok := bad[base]; !ok {
+					bad[base] = e.Msg
+				}
+			} else {
+				other = true
+			}
 		}
 	})
 	if nerr > 0 {
-		return nil, fmt.Errorf("%d load errors (harness does not compile against the current tree)", nerr)
+		if other {
+			bad = nil
+		}
+		return nil, bad, fmt.Errorf("%d load errors (harness does not compile against the current tree)", nerr)
 	}
 	prog, spkgs := ssautil.AllPackages(pkgs, ssa.InstantiateGenerics)
 	prog.Build()
@@ -168,7 +220,7 @@ func load() (*Loaded, error) {
 		}
 	}
 	l.LoadSecs = time.Since(t0).Seconds()
-	return l, nil
+	return l, nil, nil
 }
 
 // loadTyped loads only the package under test with type information (for the
